@@ -223,7 +223,8 @@ func runC16(r *Run) {
 	hooks := plonkGateHooks()
 	var cases []fieldCase
 	type sh struct{ deg, ch, routed, qdf, ng uint64 }
-	shapes := []sh{{3, 1, 2, 1, 1}, {4, 2, 4, 2, 3}, {5, 1, 8, 8, 2}, {6, 3, 16, 4, 2}}
+	// (quotient degree factors 3 and 6: chunk bounds that are not powers of two)
+	shapes := []sh{{3, 1, 2, 1, 1}, {4, 2, 4, 2, 3}, {5, 1, 8, 8, 2}, {6, 3, 16, 4, 2}, {4, 2, 6, 3, 2}, {5, 1, 12, 6, 1}}
 	if r.Thorough() {
 		shapes = append(shapes, sh{2, 1, 2, 2, 0}, sh{4, 2, 16, 8, 5}, sh{7, 3, 8, 2, 4}, sh{12, 2, 80, 8, 10}, sh{10, 1, 16, 1, 1})
 	}
